@@ -12,7 +12,8 @@ LEVEL = 'exploration'
 RULE = ('case = (str or bytes, placement in {top, sole element, first of two, dict key, dict value, '
         'SimpleNamespace kwarg, pretty_call positional arg, pretty_call kwarg}, width, ribbon, indent). Exhaustive: every '
         'str/bytes over the 8-symbol alphabet (quote, dquote, backslash, space, newline, letter, non-ASCII, NUL) up to '
-        'length 3 (quick) / 4 (thorough) x every placement x every width 1..len(repr)+indent+8, plus the same '
+        'length 3 (quick) / 4 (thorough) x every placement x every width 1..len(repr)+indent+8, every word over {quote, '
+        'dquote, backslash, letter} up to length 6/7, plus the same '
         'words embedded in padding so that split points sweep over them; random: long unicode/binary up to 400. '
         'Oracle: STRING tokens (tokenize) literal_eval-ed and concatenated == original, same type, no empty piece '
         '(unless the value is empty: exactly one), b prefix on every bytes piece, whole output evaluates to the '
@@ -94,6 +95,14 @@ def enumerate_cases(tier):
             for where in PLACES:
                 for w in widths:
                     yield _case(s, where, w)
+    # quote / backslash interplay: every word over {', ", \\, a} up to length 6 (quick) / 7, str and bytes
+    QL = 6 if tier == 'quick' else 7
+    for alpha in (["'", '"', '\\', 'a'], [b"'", b'"', b'\\', b'a']):
+        for s in _words(alpha, QL):
+            if len(s) < 4:
+                continue
+            for where, w in (('top', 79), ('val', 1)) if tier == 'quick' else (('top', 79), ('val', 1), ('key', 30), ('call', 12)):
+                yield _case(s, where, w)
     # embedded: split points sweep over the adversarial word
     pads = [(9, 0), (8, 3), (5, 9), (10, 10)] if tier == 'quick' else [(i, j) for i in (0, 5, 8, 9, 10, 11) for j in (0, 1, 9, 12)]
     EL = 2
@@ -127,7 +136,8 @@ def strategy(tier):
     quotes2 = st.lists(st.sampled_from(['"', 'a', ' ', 'bc']), max_size=80).map(''.join)
     quotes3 = st.lists(st.sampled_from(['"', "'", "'", 'a', ' ']), max_size=80).map(''.join)
     quotes4 = st.lists(st.sampled_from(['"', '"', "'", 'a', ' ']), max_size=80).map(''.join)
-    s_str = st.one_of(long_adv, S['words'], st.text(max_size=400), quotes1, quotes2, quotes3, quotes4,
+    quotes5 = st.lists(st.sampled_from(['"', "'", '\\', '\\"', "\\'", 'a', ' ', 'word']), max_size=60).map(''.join)
+    s_str = st.one_of(long_adv, S['words'], st.text(max_size=400), quotes1, quotes2, quotes3, quotes4, quotes5, quotes5,
                       st.integers(0, 200).map(lambda n: 'x' * n))
     s_bytes = st.one_of(st.binary(max_size=400),
                         s_str.map(lambda s: s.encode('utf-8', 'surrogatepass')),
